@@ -366,8 +366,11 @@ func runC06(c C06Case) (st Stats, err error) {
 					cd.SetEncap(append([]string{}, s.Enc...))
 				}
 			case "seterr":
-				if s.Mode == 0 {
+				if s.Mode == 0 || s.Mode == 2 {
 					m.err = errors.New("user error")
+					if s.Mode == 2 {
+						m.err = errors.New("") // an error is an error whatever its message says
+					}
 					cd.SetErr(m.err)
 				} else {
 					m.err = nil
@@ -478,7 +481,7 @@ func genC06(t *rapid.T, tier Tier) C06Case {
 		case "nonest", "nopad", "paren":
 			s.Mode = rapid.IntRange(0, 2).Draw(t, "mode")
 		case "seterr":
-			s.Mode = rapid.IntRange(0, 1).Draw(t, "mode")
+			s.Mode = rapid.IntRange(0, 2).Draw(t, "mode")
 		case "encap":
 			switch rapid.IntRange(0, 3).Draw(t, "encform") {
 			case 0:
